@@ -623,6 +623,64 @@ def run_bins_direct(ctx):
             return
 
 
+def run_split_sort_split(ctx):
+    """the same split asked for twice on one object with an in-place sort by another descriptor in between (and bins that
+    overlap): every part of the second split holds exactly the rows that carry its value NOW"""
+    rng = ctx.rng
+    n_run, n_cond, n_ch, n_t = int(rng.integers(2, 4)), int(rng.integers(2, 5)), int(rng.integers(1, 4)), int(rng.integers(2, 5))
+    cond = [int(c) for _ in range(n_run) for c in rng.permutation(n_cond)]      # each run lists its conditions in its own order
+    runs = [r for r in range(n_run) for _ in range(n_cond)]
+    perm = [int(i) for i in rng.permutation(len(cond))]
+    cond, runs = [cond[i] for i in perm], [runs[i] for i in perm]
+    n_obs = len(cond)
+    temporal = bool(rng.integers(3))
+    m = np.array([[[1e4 * (o + 1) + 1e2 * (c + 1) + t for t in range(n_t)] for c in range(n_ch)] for o in range(n_obs)], dtype=float)
+    od = {'cond': list(cond), 'run': list(runs), 'ouid': list(range(1, n_obs + 1))}
+    ds = TemporalDataset(m.copy(), obs_descriptors=od, time_descriptors={'time': np.arange(n_t) * 0.5}) if temporal \
+        else Dataset(m[:, :, 0].copy(), obs_descriptors=od)
+    sig = dict(op='split_obs', arg='cond/repeated', temporal=temporal, shape='small')
+    wit = lambda **k: dict(cond=cond, run=runs, temporal=temporal, **k)  # noqa: E731
+
+    def parts_ok(parts, when):
+        seen = []
+        for p in parts:
+            ou = [int(v) for v in p.obs_descriptors['ouid']]
+            cs = set(int(v) for v in p.obs_descriptors['cond'])
+            vals = np.asarray(p.measurements).reshape(len(ou), -1)[:, 0]
+            if len(cs) != 1 or any(cond[u - 1] not in cs for u in ou) or \
+                    not np.array_equal(vals, np.array([1e4 * u + 1e2 for u in ou])):
+                ctx.fail('split_obs', dict(sig, what='association'), f'{when}: a part labelled {sorted(cs)} holds the rows '
+                         f'with uids {ou} (conditions {[cond[u - 1] for u in ou]}), first values {vals.tolist()}', wit(when=when))
+                return False
+            seen += ou
+        if sorted(seen) != list(range(1, n_obs + 1)):
+            ctx.fail('split_obs', dict(sig, what='partition'), f'{when}: the parts do not partition the observations', wit())
+            return False
+        return True
+    try:
+        first = ds.split_obs('cond')
+        if not parts_ok(first, 'first split'):
+            return
+        ds.sort_by('run')
+        second = ds.split_obs('cond')
+        ctx.case('split_obs', sig)
+        if not parts_ok(second, 'second split after sort_by(run)'):
+            return
+        if temporal and n_t >= 3:
+            # sliding windows: a time point may belong to several bins, each bin is the mean of all its points
+            tt = np.arange(n_t) * 0.5
+            bins = [tt[i:i + 2] for i in range(n_t - 1)]
+            b = ds.bin_time('time', bins)
+            ctx.case('bin_time', dict(sig, op='bin_time', arg='overlapping'))
+            cur = np.asarray(ds.measurements)
+            want = np.stack([cur[:, :, i:i + 2].mean(axis=2) for i in range(n_t - 1)], axis=2)
+            if np.asarray(b.measurements).shape != want.shape or not np.allclose(np.asarray(b.measurements), want, rtol=1e-13, atol=1e-9):
+                ctx.fail('bin_time', dict(sig, op='bin_time', arg='overlapping', what='bin_mean'), 'overlapping bins: a bin is '
+                         'not the mean of exactly its time points', wit(bins=[x.tolist() for x in bins]))
+    except Exception as exc:
+        ctx.fail('split_obs', dict(sig, what='raised', exception=type(exc).__name__), repr(exc), wit())
+
+
 def run_close_labels(ctx):
     """numeric labels that are distinct but close (a time axis 1000 s + k ms, acquisition time stamps one hour apart,
     channel positions in metres): selections match labels by value -- exactly the matching items, nothing 'close'"""
@@ -740,6 +798,7 @@ def run(ctx):
     for _ in range(ctx.n(40, 200)):
         run_bins_direct(ctx)
         run_close_labels(ctx)
+        run_split_sort_split(ctx)
     n = ctx.n(200, 3000)
     length = 10 if ctx.tier == 'quick' else 20
     for it in range(n):
